@@ -6,20 +6,37 @@
    The monotonic clock is virtual (mhd_mono_clock.c is not linked).
    No source change in /repo is needed. */
 #include "MHD_config.h"
+#include <stdlib.h>
+/* the pseudo-random source of calculate_add_nonce_with_retry is scripted */
+static long verif_random_value;
+static long verif_random (void) { return verif_random_value; }
+static int verif_rand (void) { return (int) verif_random_value; }
+#define random verif_random
+#define rand verif_rand
 #include "digestauth.c"
+#undef random
+#undef rand
 #include "common/lp.h"
 
 /* ---- virtual clock (replaces mhd_mono_clock.c) ---- */
 static uint64_t vclock_ms;
+static int vclock_scripted;      /* inside `genr`: the first reading is vclock_ms, later ones vclock_second */
+static unsigned int vclock_reads;
+static uint64_t vclock_second;
 void MHD_monotonic_sec_counter_init (void) { }
 void MHD_monotonic_sec_counter_finish (void) { }
 time_t MHD_monotonic_sec_counter (void) { return (time_t) (vclock_ms / 1000); }
-uint64_t MHD_monotonic_msec_counter (void) { return vclock_ms; }
+uint64_t MHD_monotonic_msec_counter (void)
+{
+  if (vclock_scripted && 0 != vclock_reads++) return vclock_second;
+  return vclock_ms;
+}
 
 /* ---- fabricated daemon and connection ---- */
 static struct MHD_Daemon daemon_s;
 static struct MHD_Connection conn_s;
 static struct sockaddr_storage addr_s;
+static struct sockaddr_storage *conn_addr;   /* scripted address, exact size */
 static const char rnd_seed[] = "verif-fixed-seed";
 
 static size_t
@@ -68,6 +85,55 @@ setup (void)
   conn_s.rq.url_len = 1;
   conn_s.rq.headers_received = NULL;
   conn_s.state = MHD_CONNECTION_HEADERS_PROCESSED;
+}
+
+/* ---- scripted request (what calculate_nonce may bind a nonce to) ---- */
+static char *rq_method, *rq_url, *rq_rnd;
+static int have_daemon, have_rq;   /* `gen` / `genr` need both lines first */
+static struct MHD_HTTP_Req_Header *rq_args;
+
+static void
+free_args (void)
+{
+  while (NULL != rq_args)
+  {
+    struct MHD_HTTP_Req_Header *n = rq_args->next;
+    free ((void *) rq_args->header); free ((void *) rq_args->value); free (rq_args);
+    rq_args = n;
+  }
+  conn_s.rq.headers_received = NULL;
+}
+
+/* "none" or k[=v],k[=v]… (hex); a header-kind entry is put in front of every argument so that
+   the kind filter of calculate_nonce is exercised */
+static int
+set_args (const char *spec)
+{
+  struct MHD_HTTP_Req_Header **tail = &rq_args;
+  char *copy, *tok, *save = NULL;
+  free_args ();
+  if (0 == strcmp (spec, "none")) return 1;
+  copy = strdup (spec);
+  for (tok = strtok_r (copy, ",", &save); NULL != tok; tok = strtok_r (NULL, ",", &save))
+  {
+    struct MHD_HTTP_Req_Header *h, *g;
+    char *eq = strchr (tok, '=');
+    size_t kl, vl = 0; uint8_t *k, *v = NULL;
+    if (eq) *eq = 0;
+    k = lp_unhex (tok, &kl);
+    if (eq) v = lp_unhex (eq + 1, &vl);
+    if (NULL == k || (eq && NULL == v)) { free (k); free (v); free (copy); return 0; }
+    g = (struct MHD_HTTP_Req_Header *) calloc (1, sizeof (*g));
+    g->kind = MHD_HEADER_KIND; g->header = strdup ("X"); g->header_size = 1; g->value = strdup ("y"); g->value_size = 1;
+    h = (struct MHD_HTTP_Req_Header *) calloc (1, sizeof (*h));
+    h->kind = MHD_GET_ARGUMENT_KIND;
+    h->header = (char *) k; h->header_size = kl;      /* exact size, not terminated */
+    h->value = (char *) v; h->value_size = vl;
+    *tail = g; g->next = h; tail = &h->next;
+  }
+  free (copy);
+  conn_s.rq.headers_received = rq_args;
+  return 1;
 }
 
 static int
@@ -311,6 +377,72 @@ int main (void)
       free ((void *) p->cnonce.value.str); free ((void *) p->nc.value.str);
       free (p); free (n);
     }
+    else if (l.n == 3 && !strcmp (l.w[0], "daemon") && lp_u64 (l.w[1], &a) && a < 16)
+    { /* dauth_bind_type as parse_options_va stores it, and the random seed */
+      size_t rl; uint8_t *r = lp_unhex (l.w[2], &rl);
+      if (!r) { puts ("bad-op"); continue; }
+      free (rq_rnd);
+      rq_rnd = (char *) r;                      /* exact size */
+      daemon_s.digest_auth_random = rq_rnd;
+      daemon_s.digest_auth_rand_size = rl;
+      daemon_s.dauth_bind_type = (unsigned int) a;
+      have_daemon = 1;
+      if (0 != (a & MHD_DAUTH_BIND_NONCE_URI_PARAMS)) daemon_s.dauth_bind_type |= MHD_DAUTH_BIND_NONCE_URI;
+      puts ("ok");
+    }
+    else if (l.n == 6 && !strcmp (l.w[0], "rq") && lp_u64 (l.w[1], &a) && a <= 1000)
+    { /* rq <http_mthd> <method token> <url-hex> <args> <sockaddr-hex | -> */
+      size_t ul, al = 0; uint8_t *u = lp_unhex (l.w[3], &ul);
+      uint8_t *ad = strcmp (l.w[5], "-") ? lp_unhex (l.w[5], &al) : NULL;
+      if (!u || (strcmp (l.w[5], "-") && !ad) || !(0 == al || sizeof (struct sockaddr_in) == al || sizeof (struct sockaddr_in6) == al)
+          || !set_args (l.w[4]))
+      { free (u); free (ad); puts ("bad-op"); continue; }
+      free (rq_method); free (rq_url);
+      rq_method = strdup (l.w[2]);
+      rq_url = (char *) u;                      /* exact size, not terminated */
+      conn_s.rq.http_mthd = (enum MHD_HTTP_Method) a;
+      conn_s.rq.method = rq_method;
+      conn_s.rq.url = rq_url;
+      conn_s.rq.url_len = ul;
+      free (conn_addr);
+      conn_addr = (struct sockaddr_storage *) ad;   /* exact size: sockaddr_in / sockaddr_in6 / none */
+      conn_s.addr = conn_addr ? conn_addr : &addr_s;
+      conn_s.addr_len = (socklen_t) al;
+      have_rq = 1;
+      puts ("ok");
+    }
+    else if (l.n == 4 && !strcmp (l.w[0], "gen") && lp_u64 (l.w[1], &a) && lp_u64 (l.w[2], &b))
+    { /* gen <algo> <timestamp> <realm-hex>: the real calculate_add_nonce on the scripted request */
+      enum MHD_DigestBaseAlgo ba; enum MHD_DigestAuthAlgo3 a3;
+      size_t sl, ol; char *o; int r;
+      uint8_t *salt = lp_unhex (l.w[3], &sl);
+      if (!salt || !base_algo (a, &ba, &a3) || !have_daemon || !have_rq) { free (salt); puts ("bad-op"); continue; }
+      r = do_add (b, ba, salt, sl, &o, &ol);
+      fputs (r ? "added " : "refused ", stdout); lp_puthex (stdout, o, ol); putchar ('\n');
+      free (o); free (salt);
+    }
+    else if (l.n == 5 && !strcmp (l.w[0], "genr") && lp_u64 (l.w[1], &a) && lp_u64 (l.w[2], &b) && lp_u64 (l.w[3], &c)
+             && c <= 0x7fffffff)
+    { /* genr <algo> <second clock value> <random ()> <realm-hex>: calculate_add_nonce_with_retry; the first
+         clock value is the current `clock` */
+      enum MHD_DigestBaseAlgo ba; enum MHD_DigestAuthAlgo3 a3;
+      struct DigestAlgorithm da;
+      size_t sl, ol; char *o, *realm; bool r;
+      uint8_t *salt = lp_unhex (l.w[4], &sl);
+      if (!salt || !base_algo (a, &ba, &a3) || NULL != memchr (salt, 0, sl) || !have_daemon || !have_rq)
+      { free (salt); puts ("bad-op"); continue; }
+      realm = (char *) malloc (sl + 1); memcpy (realm, salt, sl); realm[sl] = 0;
+      digest_setup_zero (&da);
+      if (! digest_init_one_time (&da, ba)) abort ();
+      ol = NONCE_STD_LEN (digest_get_size (&da));
+      o = (char *) malloc (ol);
+      vclock_scripted = 1; vclock_reads = 0; vclock_second = b; verif_random_value = (long) c;
+      r = calculate_add_nonce_with_retry (&conn_s, realm, &da, o);
+      vclock_scripted = 0;
+      digest_deinit (&da);
+      fputs (r ? "true " : "false ", stdout); lp_puthex (stdout, o, ol); putchar ('\n');
+      free (o); free (salt); free (realm);
+    }
     else if (l.n == 1 && !strcmp (l.w[0], "state"))
     {
       printf ("n=%u", daemon_s.nonce_nc_size);
@@ -330,6 +462,7 @@ int main (void)
     else puts ("bad-op");
   }
   free (daemon_s.nnc);
+  free_args (); free (rq_method); free (rq_url); free (rq_rnd); free (conn_addr);
   free (l.buf);
   return 0;
 }
